@@ -19,6 +19,7 @@ func init() {
 			ruleKind(c)
 			ruleOptionScope(c)
 			ruleAddCodecs(c)
+			ruleKeySelf(c)
 			ruleSliceWrapOnly(c)
 		},
 	})
